@@ -600,4 +600,158 @@ theorem find_lookup {m : XMap κ ν} (h : Inv hash m) (k : κ) :
     (find hash m k).map (·.map (·.val)) = some (m.toList.lookup k) := by
   rw [find_spec h k, toList, lookup_toList]; rfl
 
+/-! ### operator[] assignment, copy construction, operator= -/
+
+theorem lookup_none_of_not_mem (l : List (κ × ν)) (k : κ) (h : ∀ p ∈ l, p.1 ≠ k) : l.lookup k = none := by
+  induction l with
+  | nil => rfl
+  | cons p t ih =>
+    obtain ⟨a, b⟩ := p
+    have h1 : a ≠ k := h (a, b) (List.mem_cons_self ..)
+    have h2 : (k == a) = false := by simpa using fun e => h1 e.symm
+    simp only [List.lookup_cons, h2]
+    exact ih (fun q hq => h q (List.mem_cons_of_mem _ hq))
+
+/-- assignment through the iterator returned by `operator[]`/`find`: ids, keys and buckets unchanged -/
+theorem updateVal_inv {m : XMap κ ν} (h : Inv hash m) (id : Nat) (v : ν) :
+    Inv hash { m with entries := m.entries.map fun x => if x.id = id then { x with val := v } else x } := by
+  have hid : (m.entries.map fun x => if x.id = id then { x with val := v } else x).map (·.id) = m.entries.map (·.id) := by
+    rw [List.map_map]; apply List.map_congr_left; intro x _; simp only [Function.comp]; split <;> rfl
+  have hkey : (m.entries.map fun x => if x.id = id then { x with val := v } else x).map (·.key) = m.entries.map (·.key) := by
+    rw [List.map_map]; apply List.map_congr_left; intro x _; simp only [Function.comp]; split <;> rfl
+  have hmem : ∀ y ∈ (m.entries.map fun x => if x.id = id then { x with val := v } else x),
+      ∃ x ∈ m.entries, y.id = x.id ∧ y.key = x.key := by
+    intro y hy
+    obtain ⟨x, hx, rfl⟩ := List.mem_map.mp hy
+    exact ⟨x, hx, by split <;> rfl, by split <;> rfl⟩
+  refine ⟨by simp [h.size_eq], by rw [hid]; exact h.ids_nodup, by rw [hkey]; exact h.keys_nodup, h.free_nodup,
+    ?_, ?_, ?_, ?_, h.fresh_f, h.minb, h.lfd⟩
+  · intro y hy
+    obtain ⟨x, hx, e1, _⟩ := hmem y hy
+    rw [e1]; exact h.disjoint x hx
+  · intro y hy
+    obtain ⟨x, hx, e1, e2⟩ := hmem y hy
+    rw [e1, e2]; exact h.bucketed x hx
+  · intro b hb i hi
+    rcases h.nodangling b hb i hi with ⟨x, hx, hxi⟩ | hf
+    · left
+      refine ⟨if x.id = id then { x with val := v } else x, List.mem_map_of_mem hx, ?_⟩
+      split <;> exact hxi
+    · exact Or.inr hf
+  · intro y hy
+    obtain ⟨x, hx, e1, _⟩ := hmem y hy
+    rw [e1]; exact h.fresh_e x hx
+
+theorem updateVal_toList {m : XMap κ ν} (h : Inv hash m) {e : MEntry κ ν} (he : e ∈ m.entries) (v : ν) :
+    (m.entries.map fun x => if x.id = e.id then { x with val := v } else x).map (fun x => (x.key, x.val)) =
+      m.toList.map (fun p => if p.1 = e.key then (e.key, v) else p) := by
+  unfold toList
+  rw [List.map_map, List.map_map]
+  apply List.map_congr_left
+  intro x hx
+  simp only [Function.comp]
+  by_cases hxe : x = e
+  · subst hxe; simp
+  · have h1 : x.id ≠ e.id := fun heq => hxe (eq_of_id_eq h.ids_nodup hx he heq)
+    have h2 : x.key ≠ e.key := fun heq => hxe (eq_of_key_eq h.keys_nodup hx he heq)
+    simp [h1, h2]
+
+/-- **`map[key] = v`** -/
+theorem setAt_spec {m : XMap κ ν} (h : Inv hash m) (dflt : ν) (k : κ) (v : ν) :
+    ∃ m', setAt hash dflt m k v = some m' ∧ Inv hash m' ∧
+      m'.toList = (match m.toList.lookup k with
+        | some _ => m.toList.map (fun p => if p.1 = k then (k, v) else p)
+        | none => m.toList ++ [(k, v)]) := by
+  unfold setAt
+  rw [find_spec h k]
+  simp only [Option.bind_some, toList, lookup_toList]
+  cases hf : m.entries.find? (fun e => e.key == k) with
+  | some e =>
+    have he := List.mem_of_find?_eq_some hf
+    have hk : e.key = k := by simpa using List.find?_some hf
+    refine ⟨_, rfl, updateVal_inv h e.id v, ?_⟩
+    have := updateVal_toList h he v
+    simp only [toList, hk] at this
+    simpa using this
+  | none =>
+    have hk : ∀ e ∈ m.entries, e.key ≠ k := by
+      intro e he heq
+      rw [List.find?_eq_none] at hf
+      exact hf e he (by simpa using heq)
+    obtain ⟨m', e, hc, i', ent', ek, ev⟩ := createEntry_spec h k dflt hk
+    refine ⟨_, by simp only [hc, Option.map_some], updateVal_inv i' e.id v, ?_⟩
+    have he : e ∈ m'.entries := by rw [ent']; simp
+    have := updateVal_toList i' he v
+    simp only [toList] at this
+    simp only [Option.map_none]
+    rw [this, ent', ek]
+    simp only [List.map_append, List.map_cons, List.map_nil, ek, if_true]
+    congr 1
+    rw [List.map_map]
+    conv => rhs; rw [← List.map_id (List.map (fun e => (e.key, e.val)) m.entries)]
+    rw [List.map_map]
+    apply List.map_congr_left
+    intro x hx
+    have : x.key ≠ k := hk x hx
+    simp [this]
+
+theorem insertAll_spec (l : List (κ × ν)) {m : XMap κ ν} (h : Inv hash m) (hn : (l.map (·.1)).Nodup)
+    (hd : ∀ p ∈ l, ∀ e ∈ m.entries, e.key ≠ p.1) :
+    ∃ m', insertAll hash l m = some m' ∧ Inv hash m' ∧ m'.toList = m.toList ++ l := by
+  induction l generalizing m with
+  | nil => exact ⟨m, rfl, h, by simp⟩
+  | cons p t ih =>
+    obtain ⟨k, v⟩ := p
+    simp only [List.map_cons, List.nodup_cons] at hn
+    obtain ⟨m1, e1, i1, t1⟩ := insert_spec h k v
+    have hl : m.toList.lookup k = none := by
+      apply lookup_none_of_not_mem
+      intro q hq
+      obtain ⟨e, he, rfl⟩ := List.mem_map.mp hq
+      exact hd (k, v) (List.mem_cons_self ..) e he
+    simp only [hl] at t1
+    have hd1 : ∀ p ∈ t, ∀ e ∈ m1.entries, e.key ≠ p.1 := by
+      intro p hp e he
+      have : (e.key, e.val) ∈ m1.toList := List.mem_map_of_mem he
+      rw [t1] at this
+      rcases List.mem_append.mp this with h1 | h1
+      · obtain ⟨e0, he0, heq⟩ := List.mem_map.mp h1
+        have : e0.key = e.key := by simpa using congrArg Prod.fst heq
+        rw [← this]; exact hd p (List.mem_cons_of_mem _ hp) e0 he0
+      · have : e.key = k := by simpa using congrArg Prod.fst (List.mem_singleton.mp h1)
+        rw [this]; intro heq; exact hn.1 (heq ▸ List.mem_map_of_mem hp)
+    obtain ⟨m2, e2, i2, t2⟩ := ih i1 hn.2 hd1
+    exact ⟨m2, by simp [insertAll, e1, e2], i2, by rw [t2, t1]; simp⟩
+
+/-- the freshly constructed target of the copy constructor, before the insert loop -/
+def copyInit (rhs : XMap κ ν) : XMap κ ν :=
+  { lfNum := rhs.lfNum, lfDen := rhs.lfDen, minBuckets := rhs.minBuckets,
+    buckets := List.replicate (rhs.lfNum * rhs.size / rhs.lfDen + 1) [],
+    eraseThreshold := rhs.eraseThreshold }
+
+/-- **copy constructor** -/
+theorem copyOf_spec {rhs : XMap κ ν} (h : Inv hash rhs) :
+    ∃ m', copyOf hash rhs = some m' ∧ Inv hash m' ∧ m'.toList = rhs.toList := by
+  have hc : copyOf hash rhs = insertAll hash rhs.toList (copyInit rhs) := rfl
+  rw [hc]
+  have h0 : Inv hash (copyInit rhs) := by
+    refine ⟨rfl, by simp [copyInit], by simp [copyInit], by simp [copyInit], ?_, ?_, ?_, ?_, ?_, h.minb, h.lfd⟩
+    · intro x hx; cases hx
+    · intro x hx; cases hx
+    · intro b hb id hid
+      have hb' : b ∈ List.replicate (rhs.lfNum * rhs.size / rhs.lfDen + 1) ([] : List Nat) := hb
+      rw [List.mem_replicate] at hb'; rw [hb'.2] at hid; cases hid
+    · intro x hx; cases hx
+    · intro x hx; cases hx
+  have hn : (rhs.toList.map (·.1)).Nodup := by
+    unfold toList; rw [List.map_map]; exact h.keys_nodup
+  obtain ⟨m', e, i, t⟩ := insertAll_spec rhs.toList h0 hn (by intro p _ e he; cases he)
+  exact ⟨m', e, i, by rw [t]; rfl⟩
+
+/-- **operator=** -/
+theorem assign_spec {m rhs : XMap κ ν} (hm : Inv hash m) (h : Inv hash rhs) :
+    ∃ m', assign hash m rhs = some m' ∧ Inv hash m' ∧ m'.toList = rhs.toList := by
+  obtain ⟨t, e, i, tl⟩ := copyOf_spec h
+  exact ⟨swapInto m t, by simp [assign, e], swapInto_inv hm i, tl⟩
+
 end XalanModel.Containers.XMap
